@@ -652,6 +652,202 @@ def sec2gmt_identity(ctx):
             return
 
 
+# ------------------------------------------------------------------ regex forms of cut and rename (correspondence only)
+ASCII_NAMES = [n for n in PLAIN + META if all(c < 128 for c in n) and b"\\" not in n]
+RE_META = set(b".*+?()[]{}|^$\\")
+
+
+class RX:
+    """tiny regex AST with three renderings: Go/Miller text, Coq term (C12/Regex.v), nullability"""
+
+    def __init__(self, kind, *a):
+        self.kind, self.a = kind, a
+
+    def text(self):
+        k, a = self.kind, self.a
+        if k == "chr":
+            c = a[0]
+            return ("\\" + chr(c)) if c in RE_META else chr(c)
+        if k == "any":
+            return "."
+        if k == "cls":
+            neg, rs = a
+            return "[" + ("^" if neg else "") + "".join(chr(x) if x == y else "%c-%c" % (x, y) for x, y in rs) + "]"
+        if k == "seq":
+            return "".join(x.text() for x in a[0])
+        if k == "alt":
+            return "(?:" + a[0].text() + "|" + a[1].text() + ")"
+        if k == "star":
+            return RX.wrap(a[0]) + "*"
+        if k == "plus":
+            return RX.wrap(a[0]) + "+"
+        if k == "opt":
+            return RX.wrap(a[0]) + "?"
+        if k == "bol":
+            return "^"
+        if k == "eol":
+            return "$"
+        if k == "grp":
+            return "(" + a[1].text() + ")"
+        if k == "eps":
+            return ""
+
+    @staticmethod
+    def wrap(x):
+        return x.text() if x.kind in ("chr", "any", "cls", "grp") else "(?:" + x.text() + ")"
+
+    def coq(self):
+        k, a = self.kind, self.a
+        ch = lambda c: "(ascii_of_N %d)" % c
+        if k == "chr":
+            return "(Chr %s)" % ch(a[0])
+        if k == "any":
+            return "Any"
+        if k == "cls":
+            return "(Cls %s [%s])" % (coq_bool(a[0]), "; ".join("(%s, %s)" % (ch(x), ch(y)) for x, y in a[1]))
+        if k == "seq":
+            t = "Eps"
+            for x in reversed(a[0]):
+                t = "(Seq %s %s)" % (x.coq(), t)
+            return t
+        if k == "alt":
+            return "(Alt %s %s)" % (a[0].coq(), a[1].coq())
+        if k == "star":
+            return "(Star %s)" % a[0].coq()
+        if k == "plus":
+            return "(Seq %s (Star %s))" % (a[0].coq(), a[0].coq())
+        if k == "opt":
+            return "(Alt %s Eps)" % a[0].coq()
+        if k == "bol":
+            return "Bol"
+        if k == "eol":
+            return "Eol"
+        if k == "grp":
+            return "(Grp %d %s)" % (a[0], a[1].coq())
+        return "Eps"
+
+    def nullable(self):
+        k, a = self.kind, self.a
+        if k in ("chr", "any", "cls"):
+            return False
+        if k == "seq":
+            return all(x.nullable() for x in a[0])
+        if k == "alt":
+            return a[0].nullable() or a[1].nullable()
+        if k in ("star", "opt", "bol", "eol", "eps"):
+            return True
+        if k == "plus":
+            return a[0].nullable()
+        if k == "grp":
+            return a[1].nullable()
+
+
+def gen_regex(rng, names, want_group=False):
+    letters = sorted(set(c for n in names for c in n if c != 0x2c)) or [0x61]
+
+    def atom():
+        x = rng.random()
+        if x < 0.6:
+            return RX("chr", rng.choice(letters))
+        if x < 0.75:
+            return RX("any")
+        return RX("cls", rng.random() < 0.25, rng.choice([[(0x61, 0x63)], [(0x30, 0x39)], [(0x78, 0x79), (0x5f, 0x5f)], [(0x61, 0x61)], [(0x41, 0x5a)]]))
+
+    def piece():
+        a = atom()
+        x = rng.random()
+        if x < 0.65:
+            return a
+        return RX(rng.choice(["star", "plus", "opt"]), a)
+
+    def seq():
+        return RX("seq", [piece() for _ in range(rng.randint(1, 3))])
+    if rng.random() < 0.35 and names:            # a literal piece of an existing name: matches are frequent
+        n = rng.choice(names)
+        i = rng.randrange(len(n)); j = rng.randint(i + 1, len(n))
+        body = RX("seq", [RX("chr", c) for c in n[i:j] if c != 0x2c] or [RX("any")])
+    else:
+        body = seq()
+    if rng.random() < 0.25:
+        body = RX("alt", body, seq())
+    grouped = False
+    if want_group or rng.random() < 0.2:
+        body = RX("grp", 1, body)
+        grouped = True
+        if rng.random() < 0.5:
+            body = RX("seq", [body, piece()])
+    parts = ([RX("bol")] if rng.random() < 0.3 else []) + [body] + ([RX("eol")] if rng.random() < 0.3 else [])
+    return RX("seq", parts), grouped
+
+
+def regex_cases(ctx):
+    """cut -r [-x] [-o] and rename -r / -g against coq/C12/Regex.v"""
+    rng = ctx.rng
+    n = 150 if ctx.tier == "quick" else 1500
+    jobs = []
+    for i in range(n):
+        recs = []
+        for _ in range(rng.choice([1, 2, 3])):
+            ks = rng.sample(ASCII_NAMES, rng.randint(1, 6))
+            recs.append([(k, rng.choice(VALUES)) for k in ks])
+        names = [k for r in recs for k, _ in r]
+        if i % 2 == 0:
+            specs = []
+            for _ in range(rng.randint(1, 3)):
+                rx, _g = gen_regex(rng, names)
+                specs.append((rng.random() < 0.2, rx, []))
+            comp, argo = rng.random() < 0.35, rng.random() < 0.35
+            words = ['"%s"%s' % (rx.text(), "i") if ci else rx.text() for ci, rx, _ in specs]
+            args = ["cut", "-r"] + (["-x"] if comp else []) + (["-o"] if argo else []) + ["-f", ",".join(words)]
+            jobs.append((1, specs, (comp, argo), args, recs))
+        else:
+            gsub = rng.random() < 0.35
+            specs, words = [], []
+            for _ in range(rng.randint(1, 2)):
+                for _try in range(20):
+                    rx, grouped = gen_regex(rng, names, want_group=(not gsub and rng.random() < 0.4))
+                    if not rx.nullable():
+                        break
+                else:
+                    rx, grouped = RX("seq", [RX("chr", 0x61)]), False
+                lit = rng.choice([b"X", b"NEW", b"a", b"", b"_", b"x_1"])
+                rep = [("l", lit)]
+                if not gsub and rng.random() < 0.5:
+                    rep = rng.choice([[("l", lit), ("c", 1 if grouped else 0)], [("c", 1 if grouped else 0), ("l", lit)], [("c", 0), ("l", b"_"), ("c", 1 if grouped else 0)]])
+                ci = rng.random() < 0.2
+                specs.append((ci, rx, rep))
+                words += ['"%s"%s' % (rx.text(), "i") if ci else rx.text(), "".join(p[1].decode() if p[0] == "l" else "\\%d" % p[1] for p in rep)]
+            args = ["rename", "-g" if gsub else "-r", ",".join(words)]
+            jobs.append((2, specs, (gsub, False), args, recs))
+    outs = verbrun(ctx, [(j[3], j[4]) for j in jobs])
+    terms, meta = [], []
+    for j, (st, out, err) in zip(jobs, outs):
+        code, specs, fl, args, recs = j
+        ctx.dist("regex:" + args[0] + " " + args[1])
+        ctx.count(("regex", repr(args), repr(recs)))
+        if st != 0:
+            violation_once(ctx, {"broken": "regex form: verb failed", "args": args, "input": repr(recs), "observed": err.decode("latin1")[-300:], "class": "regex-mlr-failed"})
+            continue
+        if code == 1 and 0 < sum(len(r) for r in out) < sum(len(r) for r in recs):
+            ctx.dist("regex:cut selects a proper subset")
+        if code == 2 and out != recs:
+            ctx.dist("regex:rename changed a name")
+        sp = coq_list(["(%s, %s, %s)" % (coq_bool(ci), rx.coq(), coq_list(["(inl %s)" % coq_bytes(p[1]) if p[0] == "l" else "(inr %d%%nat)" % p[1] for p in rep]))
+                       for ci, rx, rep in specs])
+        terms.append(f"({code}, {sp}, ({coq_bool(fl[0])}, {coq_bool(fl[1])}), {coq_records(recs)}, {coq_records(out)})")
+        meta.append((j, out))
+    bad, err = coq_eval_mismatches(ctx, "C12r", "Base.Record C12.Model C12.Regex",
+                                   "Z * list (bool * re * list piece) * (bool * bool) * list record * list record", "chk_r", terms, shard=max(1, len(terms) // 2 + 1))
+    ctx.cov["correspondence_regex"] = {"cases": len(terms), "mismatches": len(bad)}
+    if err:
+        ctx.violation({"broken": "correspondence-evaluation (regex)", "detail": err[-2000:]}, found_input=False)
+        return
+    for i in bad[:3]:
+        j, out = meta[i]
+        ctx.violation({"broken": "correspondence C12.Regex.chk_r (regex model and implementation differ)", "args": j[3], "input": repr(j[4]), "observed": repr(out)},
+                      found_input=False)
+
+
 def saver_bystanders(ctx):
     """case / sub / gsub / ssub -f F and unspace: fields they do not name (resp. that contain no space) keep name, value
     and position; values-only forms keep every name; ssub/case/unspace are compared with a first-principles result"""
@@ -721,7 +917,7 @@ def run(ctx):
     ctx.assumptions = ["regex forms (-r), flatten/unflatten, json-stringify/json-parse, case, unspace, sub/gsub/ssub, sec2gmt on numbers are not modelled in Coq",
                        "multi-byte --nested-fs is not modelled", "input records have pairwise distinct keys (reader invariant)"]
     forbidden_gate(ctx, ["Base", "C12"])
-    ok, why = check_props(ctx, "C12/Props.v", ["C12/Harness.vo", "C12/Proofs.vo", "C12/ProofsStream.vo"])
+    ok, why = check_props(ctx, "C12/Props.v", ["C12/Harness.vo", "C12/Proofs.vo", "C12/ProofsStream.vo", "C12/Regex.vo"])
     verbs = mk_cases(ctx)
     per = 100 if ctx.tier == "quick" else 400
     jobs = []
@@ -797,6 +993,8 @@ def run(ctx):
         sec2gmt_identity(ctx)
         saver_bystanders(ctx)
         defect_probes(ctx)
+    with ctx.timed("regex_forms"):
+        regex_cases(ctx)
 
 
 def replay(ctx, path):
